@@ -6,88 +6,123 @@ each entry.  The table was transcribed from the docstrings / comments of the fam
 by axiom; it is the specification the extracted emission schemas are compared with (rule AXIOM-SCHEMA of C01, C02, C03).
 """
 
+# helper enumerators the axioms quantify over: their yield / return schema is compared the same way
+HELPERS = {
+    ('cnfgen.families.pebbling', '_uniqify_list'),
+    ('cnfgen.families.ramsey', '_vdw_ap_generator'),
+    ('cnfgen.families.subgraph', 'non_edges'),
+}
+
 SPECS = {
     ('cnfgen.families.cliquecoloring', 'CliqueColoring'): [
-        # : force_complete_mapping(q)
-        ((), (), 'force_complete_mapping', ('q',)),
-        # : force_functional_mapping(q)
-        ((), (), 'force_functional_mapping', ('q',)),
-        # : force_injective_mapping(q)
-        ((), (), 'force_injective_mapping', ('q',)),
-        # for (q0, q1) in combinations(q.domain(), 2) for (q2, q3) in e.indices(): add_clause([-q(q0, q2), -q(q1, q3), e(q2, q3)])
-        ((('(q0, q1)', 'combinations(q.domain(), 2)'), ('(q2, q3)', 'e.indices()')), (), 'add_clause', ('[-q(q0, q2), -q(q1, q3), e(q2, q3)]',)),
-        # for (q0, q1) in combinations(q.domain(), 2) for (q2, q3) in e.indices(): add_clause([-q(q0, q3), -q(q1, q2), e(q2, q3)])
-        ((('(q0, q1)', 'combinations(q.domain(), 2)'), ('(q2, q3)', 'e.indices()')), (), 'add_clause', ('[-q(q0, q3), -q(q1, q2), e(q2, q3)]',)),
-        # : force_complete_mapping(r)
-        ((), (), 'force_complete_mapping', ('r',)),
-        # : force_functional_mapping(r)
-        ((), (), 'force_functional_mapping', ('r',)),
-        # for (q0, q1) in e.indices() for q2 in r.range(): add_clause([-e(q0, q1), -r(q0, q2), -r(q1, q2)])
-        ((('(q0, q1)', 'e.indices()'), ('q2', 'r.range()')), (), 'add_clause', ('[-e(q0, q1), -r(q0, q2), -r(q1, q2)]',)),
+        # : g0 = new_combinations(n, 2)
+        ((), (), 'g0 = new_combinations', ('n', '2')),
+        # : g1 = new_mapping(k, n)
+        ((), (), 'g1 = new_mapping', ('k', 'n')),
+        # : g2 = new_mapping(n, c)
+        ((), (), 'g2 = new_mapping', ('n', 'c')),
+        # : force_complete_mapping(g1)
+        ((), (), 'force_complete_mapping', ('g1',)),
+        # : force_functional_mapping(g1)
+        ((), (), 'force_functional_mapping', ('g1',)),
+        # : force_injective_mapping(g1)
+        ((), (), 'force_injective_mapping', ('g1',)),
+        # for (q0, q1) in combinations(g1.domain(), 2) for (q2, q3) in g0.indices(): add_clause([-g1(q0, q2), -g1(q1, q3), g0(q2, q3)])
+        ((('(q0, q1)', 'combinations(g1.domain(), 2)'), ('(q2, q3)', 'g0.indices()')), (), 'add_clause', ('[-g1(q0, q2), -g1(q1, q3), g0(q2, q3)]',)),
+        # for (q0, q1) in combinations(g1.domain(), 2) for (q2, q3) in g0.indices(): add_clause([-g1(q0, q3), -g1(q1, q2), g0(q2, q3)])
+        ((('(q0, q1)', 'combinations(g1.domain(), 2)'), ('(q2, q3)', 'g0.indices()')), (), 'add_clause', ('[-g1(q0, q3), -g1(q1, q2), g0(q2, q3)]',)),
+        # : force_complete_mapping(g2)
+        ((), (), 'force_complete_mapping', ('g2',)),
+        # : force_functional_mapping(g2)
+        ((), (), 'force_functional_mapping', ('g2',)),
+        # for (q0, q1) in g0.indices() for q2 in g2.range(): add_clause([-g0(q0, q1), -g2(q0, q2), -g2(q1, q2)])
+        ((('(q0, q1)', 'g0.indices()'), ('q2', 'g2.range()')), (), 'add_clause', ('[-g0(q0, q1), -g2(q0, q2), -g2(q1, q2)]',)),
     ],
     ('cnfgen.families.coloring', 'GraphColoringFormula'): [
-        # : force_complete_mapping(x)
-        ((), (), 'force_complete_mapping', ('x',)),
-        #  if functional: force_functional_mapping(x)
-        ((), ('functional',), 'force_functional_mapping', ('x',)),
-        # for (q0, q1) in G.edges() for q2 in range(1, colors + 1): add_clause([-x(q0, q2), -x(q1, q2)])
-        ((('(q0, q1)', 'G.edges()'), ('q2', 'range(1, colors + 1)')), (), 'add_clause', ('[-x(q0, q2), -x(q1, q2)]',)),
+        # : g0 = new_mapping(G.order(), colors)
+        ((), (), 'g0 = new_mapping', ('G.order()', 'colors')),
+        # : force_complete_mapping(g0)
+        ((), (), 'force_complete_mapping', ('g0',)),
+        #  if functional: force_functional_mapping(g0)
+        ((), ('functional',), 'force_functional_mapping', ('g0',)),
+        # for (q0, q1) in G.edges() for q2 in range(1, colors + 1): add_clause([-g0(q0, q2), -g0(q1, q2)])
+        ((('(q0, q1)', 'G.edges()'), ('q2', 'range(1, colors + 1)')), (), 'add_clause', ('[-g0(q0, q2), -g0(q1, q2)]',)),
     ],
     ('cnfgen.families.coloring', 'EvenColoringFormula'): [
-        # for q0 in G.vertices(): cardinality_eq([e(c0, c1) for c0, c1 in e.indices(q0, None)], len([e(c0, c1) for c0, c1 in e.indices(q0, None)]) // 2)
-        ((('q0', 'G.vertices()'),), (), 'cardinality_eq', ('[e(c0, c1) for c0, c1 in e.indices(q0, None)]', 'len([e(c0, c1) for c0, c1 in e.indices(q0, None)]) // 2')),
+        # : g0 = new_graph_edges(G)
+        ((), (), 'g0 = new_graph_edges', ('G',)),
+        # for q0 in G.vertices(): cardinality_eq([g0(c0, c1) for c0, c1 in g0.indices(q0, None)], len([g0(c0, c1) for c0, c1 in g0.indices(q0, None)]) // 2)
+        ((('q0', 'G.vertices()'),), (), 'cardinality_eq', ('[g0(c0, c1) for c0, c1 in g0.indices(q0, None)]', 'len([g0(c0, c1) for c0, c1 in g0.indices(q0, None)]) // 2')),
     ],
     ('cnfgen.families.counting', 'CountingPrinciple'): [
-        # for q0 in stars: cardinality_eq(q0, 1)
-        ((('q0', 'stars'),), (), 'cardinality_eq', ('q0', '1')),
+        # : g0 = new_combinations(M, p)
+        ((), (), 'g0 = new_combinations', ('M', 'p')),
+        # for q0 in {_it = [[] for c0 in range(M)]; for (q1, q2) in zip(g0.indices(), g0()): for q3 in q1: _it[q3 - 1].append(q2)}: cardinality_eq(q0, 1)
+        ((('q0', '{_it = [[] for c0 in range(M)]; for (q1, q2) in zip(g0.indices(), g0()): for q3 in q1: _it[q3 - 1].append(q2)}'),), (), 'cardinality_eq', ('q0', '1')),
     ],
     ('cnfgen.families.counting', 'PerfectMatchingPrinciple'): [
-        # for q0 in G.vertices(): cardinality_eq(e(q0, None), 1)
-        ((('q0', 'G.vertices()'),), (), 'cardinality_eq', ('e(q0, None)', '1')),
+        # : g0 = new_graph_edges(G)
+        ((), (), 'g0 = new_graph_edges', ('G',)),
+        # for q0 in G.vertices(): cardinality_eq(g0(q0, None), 1)
+        ((('q0', 'G.vertices()'),), (), 'cardinality_eq', ('g0(q0, None)', '1')),
     ],
     ('cnfgen.families.cpls', 'CPLSFormula'): [
-        # for q0 in G(1, 1, None): add_clause([-q0])
-        ((('q0', 'G(1, 1, None)'),), (), 'add_clause', ('[-q0]',)),
-        # for (q0, q1, q2, q3) in product(range(1, a), range(1, b + 1), range(1, b + 1), range(1, c + 1)): add_clause([-G(q0 + 1, q2, q3), G(q0, q1, q3)] + f[q0].forbid(q1, q2 - 1))
-        ((('(q0, q1, q2, q3)', 'product(range(1, a), range(1, b + 1), range(1, b + 1), range(1, c + 1))'),), (), 'add_clause', ('[-G(q0 + 1, q2, q3), G(q0, q1, q3)] + f[q0].forbid(q1, q2 - 1)',)),
-        # for q0 in range(1, b + 1) for q1 in range(1, c + 1): add_clause([G(a, q0, q1)] + u.forbid(q0, q1 - 1))
-        ((('q0', 'range(1, b + 1)'), ('q1', 'range(1, c + 1)')), (), 'add_clause', ('[G(a, q0, q1)] + u.forbid(q0, q1 - 1)',)),
+        # : g1 = new_block(a, b, c)
+        ((), (), 'g1 = new_block', ('a', 'b', 'c')),
+        # for q0 in range(1, a + 1): ? = new_binary_mapping(b, b)
+        ((('q0', 'range(1, a + 1)'),), (), '? = new_binary_mapping', ('b', 'b')),
+        # : g0 = new_binary_mapping(b, c)
+        ((), (), 'g0 = new_binary_mapping', ('b', 'c')),
+        # for q0 in g1(1, 1, None): add_clause([-q0])
+        ((('q0', 'g1(1, 1, None)'),), (), 'add_clause', ('[-q0]',)),
+        # for (q0, q1, q2, q3) in product(range(1, a), range(1, b + 1), range(1, b + 1), range(1, c + 1)): add_clause({_it = [None]; for q4 in range(1, a + 1): _it.append(F.new_binary_mapping(b, b))}[q0].forbid(q1, q2 - 1) + [-g1(q0 + 1, q2, q3), g1(q0, q1, q3)])
+        ((('(q0, q1, q2, q3)', 'product(range(1, a), range(1, b + 1), range(1, b + 1), range(1, c + 1))'),), (), 'add_clause', ('{_it = [None]; for q4 in range(1, a + 1): _it.append(F.new_binary_mapping(b, b))}[q0].forbid(q1, q2 - 1) + [-g1(q0 + 1, q2, q3), g1(q0, q1, q3)]',)),
+        # for q0 in range(1, b + 1) for q1 in range(1, c + 1): add_clause([g1(a, q0, q1)] + g0.forbid(q0, q1 - 1))
+        ((('q0', 'range(1, b + 1)'), ('q1', 'range(1, c + 1)')), (), 'add_clause', ('[g1(a, q0, q1)] + g0.forbid(q0, q1 - 1)',)),
     ],
     ('cnfgen.families.dominatingset', 'DominatingSet'): [
-        # for (q0, q1) in combinations(G.vertices(), 2) for q2 in range(1, d + 1) if 0 != G.order() and alternative: add_clause([-M(q0, q2), -M(q1, q2), -x(q0), -x(q1)])
-        ((('(q0, q1)', 'combinations(G.vertices(), 2)'), ('q2', 'range(1, d + 1)')), ('0 != G.order()', 'alternative'), 'add_clause', ('[-M(q0, q2), -M(q1, q2), -x(q0), -x(q1)]',)),
-        #  if 0 != G.order() and not alternative: force_injective_mapping(M)
-        ((), ('0 != G.order()', 'not alternative'), 'force_injective_mapping', ('M',)),
-        # for q0 in G.vertices() for (q1, q2) in combinations(range(1, d + 1), 2) if 0 != G.order() and alternative: add_clause([-M(q0, q1), -M(q0, q2), -x(q0)])
-        ((('q0', 'G.vertices()'), ('(q1, q2)', 'combinations(range(1, d + 1), 2)')), ('0 != G.order()', 'alternative'), 'add_clause', ('[-M(q0, q1), -M(q0, q2), -x(q0)]',)),
-        #  if 0 != G.order() and not alternative: force_nondecreasing_mapping(M)
-        ((), ('0 != G.order()', 'not alternative'), 'force_nondecreasing_mapping', ('M',)),
-        # for q0 in G.vertices() for q1 in range(1, d + 1) if 0 != G.order() and not alternative: add_clause([-M(q0, q1), x(q0)])
-        ((('q0', 'G.vertices()'), ('q1', 'range(1, d + 1)')), ('0 != G.order()', 'not alternative'), 'add_clause', ('[-M(q0, q1), x(q0)]',)),
-        # for q0 in G.vertices() if 0 != G.order(): add_clause([-x(q0)] + M(q0, None))
-        ((('q0', 'G.vertices()'),), ('0 != G.order()',), 'add_clause', ('[-x(q0)] + M(q0, None)',)),
-        # for q0 in unique_neighborhoods(G) if 0 != G.order(): add_clause([x(c0) for c0 in q0])
-        ((('q0', 'unique_neighborhoods(G)'),), ('0 != G.order()',), 'add_clause', ('[x(c0) for c0 in q0]',)),
+        # : g0 = new_block(G.order())
+        ((), (), 'g0 = new_block', ('G.order()',)),
+        # : g1 = new_mapping(G.order(), d)
+        ((), (), 'g1 = new_mapping', ('G.order()', 'd')),
+        # for (q0, q1) in combinations(G.vertices(), 2) for q2 in range(1, d + 1) if 0 != G.order() and alternative: add_clause([-g0(q0), -g0(q1), -g1(q0, q2), -g1(q1, q2)])
+        ((('(q0, q1)', 'combinations(G.vertices(), 2)'), ('q2', 'range(1, d + 1)')), ('0 != G.order()', 'alternative'), 'add_clause', ('[-g0(q0), -g0(q1), -g1(q0, q2), -g1(q1, q2)]',)),
+        #  if 0 != G.order() and not alternative: force_injective_mapping(g1)
+        ((), ('0 != G.order()', 'not alternative'), 'force_injective_mapping', ('g1',)),
+        # for q0 in G.vertices() for (q1, q2) in combinations(range(1, d + 1), 2) if 0 != G.order() and alternative: add_clause([-g0(q0), -g1(q0, q1), -g1(q0, q2)])
+        ((('q0', 'G.vertices()'), ('(q1, q2)', 'combinations(range(1, d + 1), 2)')), ('0 != G.order()', 'alternative'), 'add_clause', ('[-g0(q0), -g1(q0, q1), -g1(q0, q2)]',)),
+        #  if 0 != G.order() and not alternative: force_nondecreasing_mapping(g1)
+        ((), ('0 != G.order()', 'not alternative'), 'force_nondecreasing_mapping', ('g1',)),
+        # for q0 in G.vertices() for q1 in range(1, d + 1) if 0 != G.order() and not alternative: add_clause([-g1(q0, q1), g0(q0)])
+        ((('q0', 'G.vertices()'), ('q1', 'range(1, d + 1)')), ('0 != G.order()', 'not alternative'), 'add_clause', ('[-g1(q0, q1), g0(q0)]',)),
+        # for q0 in G.vertices() if 0 != G.order(): add_clause([-g0(q0)] + g1(q0, None))
+        ((('q0', 'G.vertices()'),), ('0 != G.order()',), 'add_clause', ('[-g0(q0)] + g1(q0, None)',)),
+        # for q0 in unique_neighborhoods(G) if 0 != G.order(): add_clause([g0(c0) for c0 in q0])
+        ((('q0', 'unique_neighborhoods(G)'),), ('0 != G.order()',), 'add_clause', ('[g0(c0) for c0 in q0]',)),
     ],
     ('cnfgen.families.dominatingset', 'Tiling'): [
-        # for q0 in unique_neighborhoods(G): cardinality_eq([x(c0) for c0 in q0], 1)
-        ((('q0', 'unique_neighborhoods(G)'),), (), 'cardinality_eq', ('[x(c0) for c0 in q0]', '1')),
+        # : g0 = new_block(G.order())
+        ((), (), 'g0 = new_block', ('G.order()',)),
+        # for q0 in unique_neighborhoods(G): cardinality_eq([g0(c0) for c0 in q0], 1)
+        ((('q0', 'unique_neighborhoods(G)'),), (), 'cardinality_eq', ('[g0(c0) for c0 in q0]', '1')),
     ],
     ('cnfgen.families.graphisomorphism', 'GraphIsomorphism'): [
-        # : force_complete_mapping(x)
-        ((), (), 'force_complete_mapping', ('x',)),
-        # : force_surjective_mapping(x)
-        ((), (), 'force_surjective_mapping', ('x',)),
-        # : force_functional_mapping(x)
-        ((), (), 'force_functional_mapping', ('x',)),
-        # : force_injective_mapping(x)
-        ((), (), 'force_injective_mapping', ('x',)),
-        # for (q0, q1) in combinations(x.domain(), 2) for (q2, q3) in combinations(x.range(), 2) if G1.has_edge(q0, q1) != G2.has_edge(q2, q3): add_clause([-x(q0, q2), -x(q1, q3)])
-        ((('(q0, q1)', 'combinations(x.domain(), 2)'), ('(q2, q3)', 'combinations(x.range(), 2)')), ('G1.has_edge(q0, q1) != G2.has_edge(q2, q3)',), 'add_clause', ('[-x(q0, q2), -x(q1, q3)]',)),
-        # for (q0, q1) in combinations(x.domain(), 2) for (q2, q3) in combinations(x.range(), 2) if G1.has_edge(q0, q1) != G2.has_edge(q2, q3): add_clause([-x(q0, q3), -x(q1, q2)])
-        ((('(q0, q1)', 'combinations(x.domain(), 2)'), ('(q2, q3)', 'combinations(x.range(), 2)')), ('G1.has_edge(q0, q1) != G2.has_edge(q2, q3)',), 'add_clause', ('[-x(q0, q3), -x(q1, q2)]',)),
-        #  if nontrivial: add_clause([-x(c0, c0) for c0 in x.domain() if c0 in x.range()])
-        ((), ('nontrivial',), 'add_clause', ('[-x(c0, c0) for c0 in x.domain() if c0 in x.range()]',)),
+        # : g0 = new_mapping(G1.order(), G2.order())
+        ((), (), 'g0 = new_mapping', ('G1.order()', 'G2.order()')),
+        # : force_complete_mapping(g0)
+        ((), (), 'force_complete_mapping', ('g0',)),
+        # : force_surjective_mapping(g0)
+        ((), (), 'force_surjective_mapping', ('g0',)),
+        # : force_functional_mapping(g0)
+        ((), (), 'force_functional_mapping', ('g0',)),
+        # : force_injective_mapping(g0)
+        ((), (), 'force_injective_mapping', ('g0',)),
+        # for (q0, q1) in combinations(g0.domain(), 2) for (q2, q3) in combinations(g0.range(), 2) if G1.has_edge(q0, q1) != G2.has_edge(q2, q3): add_clause([-g0(q0, q2), -g0(q1, q3)])
+        ((('(q0, q1)', 'combinations(g0.domain(), 2)'), ('(q2, q3)', 'combinations(g0.range(), 2)')), ('G1.has_edge(q0, q1) != G2.has_edge(q2, q3)',), 'add_clause', ('[-g0(q0, q2), -g0(q1, q3)]',)),
+        # for (q0, q1) in combinations(g0.domain(), 2) for (q2, q3) in combinations(g0.range(), 2) if G1.has_edge(q0, q1) != G2.has_edge(q2, q3): add_clause([-g0(q0, q3), -g0(q1, q2)])
+        ((('(q0, q1)', 'combinations(g0.domain(), 2)'), ('(q2, q3)', 'combinations(g0.range(), 2)')), ('G1.has_edge(q0, q1) != G2.has_edge(q2, q3)',), 'add_clause', ('[-g0(q0, q3), -g0(q1, q2)]',)),
+        #  if nontrivial: add_clause([-g0(c0, c0) for c0 in g0.domain() if c0 in g0.range()])
+        ((), ('nontrivial',), 'add_clause', ('[-g0(c0, c0) for c0 in g0.domain() if c0 in g0.range()]',)),
     ],
     ('cnfgen.families.graphisomorphism', 'GraphAutomorphism'): [
         # : add_clause([-F._mapping(c0, c0) for c0 in F._mapping.domain()])
@@ -96,110 +131,150 @@ SPECS = {
     ('cnfgen.families.ordering', 'OrderingPrinciple'): [
     ],
     ('cnfgen.families.ordering', 'GraphOrderingPrinciple'): [
-        # for q0 in graph.vertices() if (graph.order() != q0 or not plant): add_clause({if smart: for q1 in graph.neighbors(q0): if q1 < q0: append(x(q1, q0)) else: append(-x(q0, q1)) else: [x(c0, q0) for c0 in graph.neighbors(q0)]})
-        ((('q0', 'graph.vertices()'),), ('(graph.order() != q0 or not plant)',), 'add_clause', ('{if smart: for q1 in graph.neighbors(q0): if q1 < q0: append(x(q1, q0)) else: append(-x(q0, q1)) else: [x(c0, q0) for c0 in graph.neighbors(q0)]}',)),
-        # for (q0, q1, q2) in combinations(graph.vertices(), 3) if smart: add_clause([-x(q0, q2), x(q0, q1), x(q1, q2)])
-        ((('(q0, q1, q2)', 'combinations(graph.vertices(), 3)'),), ('smart',), 'add_clause', ('[-x(q0, q2), x(q0, q1), x(q1, q2)]',)),
-        # for (q0, q1, q2) in combinations(graph.vertices(), 3) if smart: add_clause([-x(q0, q1), -x(q1, q2), x(q0, q2)])
-        ((('(q0, q1, q2)', 'combinations(graph.vertices(), 3)'),), ('smart',), 'add_clause', ('[-x(q0, q1), -x(q1, q2), x(q0, q2)]',)),
-        # for (q0, q1, q2) in permutations(graph.vertices(), 3) if ((q0 <= q1 and q2 <= q1) or 2 != knuth) and ((q0 <= q2 and q1 <= q2) or 3 != knuth) and not smart: add_clause([-x(q0, q1), -x(q1, q2), x(q0, q2)])
-        ((('(q0, q1, q2)', 'permutations(graph.vertices(), 3)'),), ('((q0 <= q1 and q2 <= q1) or 2 != knuth)', '((q0 <= q2 and q1 <= q2) or 3 != knuth)', 'not smart'), 'add_clause', ('[-x(q0, q1), -x(q1, q2), x(q0, q2)]',)),
-        # for (q0, q1) in combinations(graph.vertices(), 2) if not smart: add_clause([-x(q0, q1), -x(q1, q0)])
-        ((('(q0, q1)', 'combinations(graph.vertices(), 2)'),), ('not smart',), 'add_clause', ('[-x(q0, q1), -x(q1, q0)]',)),
-        # for (q0, q1) in combinations(graph.vertices(), 2) if not smart and total: add_clause([x(q0, q1), x(q1, q0)])
-        ((('(q0, q1)', 'combinations(graph.vertices(), 2)'),), ('not smart', 'total'), 'add_clause', ('[x(q0, q1), x(q1, q0)]',)),
+        #  if smart: g0 = new_combinations(graph.order(), 2)
+        ((), ('smart',), 'g0 = new_combinations', ('graph.order()', '2')),
+        #  if not smart: g0 = new_permutations(graph.order(), 2)
+        ((), ('not smart',), 'g0 = new_permutations', ('graph.order()', '2')),
+        # for q0 in graph.vertices() if (graph.order() != q0 or not plant): add_clause({if smart: for q1 in graph.neighbors(q0): if q1 < q0: append(g0(q1, q0)) else: append(-g0(q0, q1)) else: [g0(c0, q0) for c0 in graph.neighbors(q0)]})
+        ((('q0', 'graph.vertices()'),), ('(graph.order() != q0 or not plant)',), 'add_clause', ('{if smart: for q1 in graph.neighbors(q0): if q1 < q0: append(g0(q1, q0)) else: append(-g0(q0, q1)) else: [g0(c0, q0) for c0 in graph.neighbors(q0)]}',)),
+        # for (q0, q1, q2) in combinations(graph.vertices(), 3) if smart: add_clause([-g0(q0, q2), g0(q0, q1), g0(q1, q2)])
+        ((('(q0, q1, q2)', 'combinations(graph.vertices(), 3)'),), ('smart',), 'add_clause', ('[-g0(q0, q2), g0(q0, q1), g0(q1, q2)]',)),
+        # for (q0, q1, q2) in combinations(graph.vertices(), 3) if smart: add_clause([-g0(q0, q1), -g0(q1, q2), g0(q0, q2)])
+        ((('(q0, q1, q2)', 'combinations(graph.vertices(), 3)'),), ('smart',), 'add_clause', ('[-g0(q0, q1), -g0(q1, q2), g0(q0, q2)]',)),
+        # for (q0, q1, q2) in permutations(graph.vertices(), 3) if ((q0 <= q1 and q2 <= q1) or 2 != knuth) and ((q0 <= q2 and q1 <= q2) or 3 != knuth) and not smart: add_clause([-g0(q0, q1), -g0(q1, q2), g0(q0, q2)])
+        ((('(q0, q1, q2)', 'permutations(graph.vertices(), 3)'),), ('((q0 <= q1 and q2 <= q1) or 2 != knuth)', '((q0 <= q2 and q1 <= q2) or 3 != knuth)', 'not smart'), 'add_clause', ('[-g0(q0, q1), -g0(q1, q2), g0(q0, q2)]',)),
+        # for (q0, q1) in combinations(graph.vertices(), 2) if not smart: add_clause([-g0(q0, q1), -g0(q1, q0)])
+        ((('(q0, q1)', 'combinations(graph.vertices(), 2)'),), ('not smart',), 'add_clause', ('[-g0(q0, q1), -g0(q1, q0)]',)),
+        # for (q0, q1) in combinations(graph.vertices(), 2) if not smart and total: add_clause([g0(q0, q1), g0(q1, q0)])
+        ((('(q0, q1)', 'combinations(graph.vertices(), 2)'),), ('not smart', 'total'), 'add_clause', ('[g0(q0, q1), g0(q1, q0)]',)),
     ],
     ('cnfgen.families.pebbling', 'PebblingFormula'): [
-        # for q0 in digraph.vertices(): add_clause([x(q0)] + [-x(c0) for c0 in digraph.predecessors(q0)])
-        ((('q0', 'digraph.vertices()'),), (), 'add_clause', ('[x(q0)] + [-x(c0) for c0 in digraph.predecessors(q0)]',)),
-        # for q0 in digraph.vertices() if 0 == digraph.out_degree(q0): add_clause([-x(q0)])
-        ((('q0', 'digraph.vertices()'),), ('0 == digraph.out_degree(q0)',), 'add_clause', ('[-x(q0)]',)),
+        # : g0 = new_block(digraph.order())
+        ((), (), 'g0 = new_block', ('digraph.order()',)),
+        # for q0 in digraph.vertices(): add_clause([g0(q0)] + [-g0(c0) for c0 in digraph.predecessors(q0)])
+        ((('q0', 'digraph.vertices()'),), (), 'add_clause', ('[g0(q0)] + [-g0(c0) for c0 in digraph.predecessors(q0)]',)),
+        # for q0 in digraph.vertices() if 0 == digraph.out_degree(q0): add_clause([-g0(q0)])
+        ((('q0', 'digraph.vertices()'),), ('0 == digraph.out_degree(q0)',), 'add_clause', ('[-g0(q0)]',)),
     ],
     ('cnfgen.families.pebbling', 'StoneFormula'): [
     ],
     ('cnfgen.families.pebbling', 'SparseStoneFormula'): [
-        # : force_complete_mapping(P)
-        ((), (), 'force_complete_mapping', ('P',)),
-        # for q0 in D.vertices() for q1 in B.right_neighbors(q0) for q2 in product(*([c1 for c1 in B.right_neighbors(c0) if c1 != q1] for c0 in D.predecessors(q0))): add_clause([-P(q0, q1), R(q1)] + [-P(c0, c1) for c0, c1 in zip(D.predecessors(q0), q2)] + [-R(c0) for c0 in _uniqify_list(q2)])
-        ((('q0', 'D.vertices()'), ('q1', 'B.right_neighbors(q0)'), ('q2', 'product(*([c1 for c1 in B.right_neighbors(c0) if c1 != q1] for c0 in D.predecessors(q0)))')), (), 'add_clause', ('[-P(q0, q1), R(q1)] + [-P(c0, c1) for c0, c1 in zip(D.predecessors(q0), q2)] + [-R(c0) for c0 in _uniqify_list(q2)]',)),
-        # for q0 in D.vertices() for q1 in B.right_neighbors(q0) if 0 == D.out_degree(q0): add_clause([-P(q0, q1), -R(q1)])
-        ((('q0', 'D.vertices()'), ('q1', 'B.right_neighbors(q0)')), ('0 == D.out_degree(q0)',), 'add_clause', ('[-P(q0, q1), -R(q1)]',)),
+        # : g0 = new_block(len(B.parts()[1]))
+        ((), (), 'g0 = new_block', ('len(B.parts()[1])',)),
+        # : g1 = new_sparse_mapping(B)
+        ((), (), 'g1 = new_sparse_mapping', ('B',)),
+        # : force_complete_mapping(g1)
+        ((), (), 'force_complete_mapping', ('g1',)),
+        # for q0 in D.vertices() for q1 in B.right_neighbors(q0) for q2 in product(*([c1 for c1 in B.right_neighbors(c0) if c1 != q1] for c0 in D.predecessors(q0))): add_clause([-g1(q0, q1), g0(q1)] + [-g0(c0) for c0 in _uniqify_list(q2)] + [-g1(c0, c1) for c0, c1 in zip(D.predecessors(q0), q2)])
+        ((('q0', 'D.vertices()'), ('q1', 'B.right_neighbors(q0)'), ('q2', 'product(*([c1 for c1 in B.right_neighbors(c0) if c1 != q1] for c0 in D.predecessors(q0)))')), (), 'add_clause', ('[-g1(q0, q1), g0(q1)] + [-g0(c0) for c0 in _uniqify_list(q2)] + [-g1(c0, c1) for c0, c1 in zip(D.predecessors(q0), q2)]',)),
+        # for q0 in D.vertices() for q1 in B.right_neighbors(q0) if 0 == D.out_degree(q0): add_clause([-g0(q1), -g1(q0, q1)])
+        ((('q0', 'D.vertices()'), ('q1', 'B.right_neighbors(q0)')), ('0 == D.out_degree(q0)',), 'add_clause', ('[-g0(q1), -g1(q0, q1)]',)),
     ],
     ('cnfgen.families.pigeonhole', 'PigeonholePrinciple'): [
-        # : force_complete_mapping(p)
-        ((), (), 'force_complete_mapping', ('p',)),
-        #  if onto: force_surjective_mapping(p)
-        ((), ('onto',), 'force_surjective_mapping', ('p',)),
-        # : force_injective_mapping(p)
-        ((), (), 'force_injective_mapping', ('p',)),
-        #  if functional: force_functional_mapping(p)
-        ((), ('functional',), 'force_functional_mapping', ('p',)),
+        # : g0 = new_mapping(pigeons, holes)
+        ((), (), 'g0 = new_mapping', ('pigeons', 'holes')),
+        # : force_complete_mapping(g0)
+        ((), (), 'force_complete_mapping', ('g0',)),
+        #  if onto: force_surjective_mapping(g0)
+        ((), ('onto',), 'force_surjective_mapping', ('g0',)),
+        # : force_injective_mapping(g0)
+        ((), (), 'force_injective_mapping', ('g0',)),
+        #  if functional: force_functional_mapping(g0)
+        ((), ('functional',), 'force_functional_mapping', ('g0',)),
     ],
     ('cnfgen.families.pigeonhole', 'GraphPigeonholePrinciple'): [
-        # : force_complete_mapping(p)
-        ((), (), 'force_complete_mapping', ('p',)),
-        #  if onto: force_surjective_mapping(p)
-        ((), ('onto',), 'force_surjective_mapping', ('p',)),
-        # : force_injective_mapping(p)
-        ((), (), 'force_injective_mapping', ('p',)),
-        #  if functional: force_functional_mapping(p)
-        ((), ('functional',), 'force_functional_mapping', ('p',)),
+        # : g0 = new_sparse_mapping(G)
+        ((), (), 'g0 = new_sparse_mapping', ('G',)),
+        # : force_complete_mapping(g0)
+        ((), (), 'force_complete_mapping', ('g0',)),
+        #  if onto: force_surjective_mapping(g0)
+        ((), ('onto',), 'force_surjective_mapping', ('g0',)),
+        # : force_injective_mapping(g0)
+        ((), (), 'force_injective_mapping', ('g0',)),
+        #  if functional: force_functional_mapping(g0)
+        ((), ('functional',), 'force_functional_mapping', ('g0',)),
     ],
     ('cnfgen.families.pigeonhole', 'BinaryPigeonholePrinciple'): [
-        # : force_complete_mapping(p)
-        ((), (), 'force_complete_mapping', ('p',)),
-        # : force_injective_mapping(p)
-        ((), (), 'force_injective_mapping', ('p',)),
+        # : g0 = new_binary_mapping(pigeons, holes)
+        ((), (), 'g0 = new_binary_mapping', ('pigeons', 'holes')),
+        # : force_complete_mapping(g0)
+        ((), (), 'force_complete_mapping', ('g0',)),
+        # : force_injective_mapping(g0)
+        ((), (), 'force_injective_mapping', ('g0',)),
     ],
     ('cnfgen.families.pigeonhole', 'RelativizedPigeonholePrinciple'): [
-        # for q0 in p.domain(): add_clause(p(q0, None))
-        ((('q0', 'p.domain()'),), (), 'add_clause', ('p(q0, None)',)),
-        # for q0 in p.range(): cardinality_leq(p(None, q0), 1)
-        ((('q0', 'p.range()'),), (), 'cardinality_leq', ('p(None, q0)', '1')),
-        # for q0 in p.domain() for q1 in p.range(): add_clause([-p(q0, q1), r(q1)])
-        ((('q0', 'p.domain()'), ('q1', 'p.range()')), (), 'add_clause', ('[-p(q0, q1), r(q1)]',)),
-        # for q0 in q.domain(): add_clause([-r(q0)] + q(q0, None))
-        ((('q0', 'q.domain()'),), (), 'add_clause', ('[-r(q0)] + q(q0, None)',)),
-        # for (q0, q1) in combinations(q.domain(), 2) for q2 in q.range(): add_clause([-q(q0, q2), -q(q1, q2), -r(q0), -r(q1)])
-        ((('(q0, q1)', 'combinations(q.domain(), 2)'), ('q2', 'q.range()')), (), 'add_clause', ('[-q(q0, q2), -q(q1, q2), -r(q0), -r(q1)]',)),
+        # : g1 = new_mapping(pigeons, resting_places)
+        ((), (), 'g1 = new_mapping', ('pigeons', 'resting_places')),
+        # : g2 = new_mapping(resting_places, holes)
+        ((), (), 'g2 = new_mapping', ('resting_places', 'holes')),
+        #  if 0 < resting_places: g0 = new_block(resting_places)
+        ((), ('0 < resting_places',), 'g0 = new_block', ('resting_places',)),
+        # for q0 in g1.domain(): add_clause(g1(q0, None))
+        ((('q0', 'g1.domain()'),), (), 'add_clause', ('g1(q0, None)',)),
+        # for q0 in g1.range(): cardinality_leq(g1(None, q0), 1)
+        ((('q0', 'g1.range()'),), (), 'cardinality_leq', ('g1(None, q0)', '1')),
+        # for q0 in g1.domain() for q1 in g1.range(): add_clause([-g1(q0, q1), g0(q1)])
+        ((('q0', 'g1.domain()'), ('q1', 'g1.range()')), (), 'add_clause', ('[-g1(q0, q1), g0(q1)]',)),
+        # for q0 in g2.domain(): add_clause([-g0(q0)] + g2(q0, None))
+        ((('q0', 'g2.domain()'),), (), 'add_clause', ('[-g0(q0)] + g2(q0, None)',)),
+        # for (q0, q1) in combinations(g2.domain(), 2) for q2 in g2.range(): add_clause([-g0(q0), -g0(q1), -g2(q0, q2), -g2(q1, q2)])
+        ((('(q0, q1)', 'combinations(g2.domain(), 2)'), ('q2', 'g2.range()')), (), 'add_clause', ('[-g0(q0), -g0(q1), -g2(q0, q2), -g2(q1, q2)]',)),
     ],
     ('cnfgen.families.pitfall', 'PitfallFormula'): [
-        # for q0 in TseitinFormula(graph, [True]) for q1 in range(1, k + 1): add_clause([shift_edgelit(q1, c0) for c0 in q0] + z(q1, None))
-        ((('q0', 'TseitinFormula(graph, [True])'), ('q1', 'range(1, k + 1)')), (), 'add_clause', ('[shift_edgelit(q1, c0) for c0 in q0] + z(q1, None)',)),
-        # for q0 in range(1, k + 1) for (q1, q2) in combinations(y(q0, None), 2) for q3 in p(q0, None): add_clause([-q3, q1, q2])
-        ((('q0', 'range(1, k + 1)'), ('(q1, q2)', 'combinations(y(q0, None), 2)'), ('q3', 'p(q0, None)')), (), 'add_clause', ('[-q3, q1, q2]',)),
-        # for q0 in range(1, k + 1) for q1 in y(q0, None) for q2 in z(q0, None): add_clause([-a(q0, 1), -q2, a(q0, 3)])
-        ((('q0', 'range(1, k + 1)'), ('q1', 'y(q0, None)'), ('q2', 'z(q0, None)')), (), 'add_clause', ('[-a(q0, 1), -q2, a(q0, 3)]',)),
-        # for q0 in range(1, k + 1) for q1 in y(q0, None) for q2 in z(q0, None): add_clause([-a(q0, 2), -a(q0, 3), -q2])
-        ((('q0', 'range(1, k + 1)'), ('q1', 'y(q0, None)'), ('q2', 'z(q0, None)')), (), 'add_clause', ('[-a(q0, 2), -a(q0, 3), -q2]',)),
-        # for q0 in range(1, k + 1) for q1 in y(q0, None) for q2 in z(q0, None): add_clause([-q1, -q2, a(q0, 1)])
-        ((('q0', 'range(1, k + 1)'), ('q1', 'y(q0, None)'), ('q2', 'z(q0, None)')), (), 'add_clause', ('[-q1, -q2, a(q0, 1)]',)),
-        # for q0 in range(1, k + 1) for q1 in y(q0, None) for q2 in z(q0, None): add_clause([-q1, -q2, a(q0, 2)])
-        ((('q0', 'range(1, k + 1)'), ('q1', 'y(q0, None)'), ('q2', 'z(q0, None)')), (), 'add_clause', ('[-q1, -q2, a(q0, 2)]',)),
-        # for q0 in range(1, ny, 2): add_clause({for q1 in range(1, k + 1): extend([-y(q1, q0), -y(q1, q0 + 1)])})
-        ((('q0', 'range(1, ny, 2)'),), (), 'add_clause', ('{for q1 in range(1, k + 1): extend([-y(q1, q0), -y(q1, q0 + 1)])}',)),
+        # for q0 in range(1, k + 1): ? = new_graph_edges({_it = networkx.random_regular_graph(d, v); _it = Graph.normalize(_it)})
+        ((('q0', 'range(1, k + 1)'),), (), '? = new_graph_edges', ('{_it = networkx.random_regular_graph(d, v); _it = Graph.normalize(_it)}',)),
+        # : g2 = new_block(k, ny)
+        ((), (), 'g2 = new_block', ('k', 'ny')),
+        # : g3 = new_block(k, nz)
+        ((), (), 'g3 = new_block', ('k', 'nz')),
+        # : g1 = new_block(k, TseitinFormula({_it = networkx.random_regular_graph(d, v); _it = Graph.normalize(_it)}, [True]).number_of_variables() + nz)
+        ((), (), 'g1 = new_block', ('k', 'TseitinFormula({_it = networkx.random_regular_graph(d, v); _it = Graph.normalize(_it)}, [True]).number_of_variables() + nz')),
+        # : g0 = new_block(k, 3)
+        ((), (), 'g0 = new_block', ('k', '3')),
+        # for q0 in TseitinFormula({_it = networkx.random_regular_graph(d, v); _it = Graph.normalize(_it)}, [True]) for q1 in range(1, k + 1): add_clause([shift_edgelit(q1, c0) for c0 in q0] + g3(q1, None))
+        ((('q0', 'TseitinFormula({_it = networkx.random_regular_graph(d, v); _it = Graph.normalize(_it)}, [True])'), ('q1', 'range(1, k + 1)')), (), 'add_clause', ('[shift_edgelit(q1, c0) for c0 in q0] + g3(q1, None)',)),
+        # for q0 in range(1, k + 1) for (q1, q2) in combinations(g2(q0, None), 2) for q3 in g1(q0, None): add_clause([-q3, q1, q2])
+        ((('q0', 'range(1, k + 1)'), ('(q1, q2)', 'combinations(g2(q0, None), 2)'), ('q3', 'g1(q0, None)')), (), 'add_clause', ('[-q3, q1, q2]',)),
+        # for q0 in range(1, k + 1) for q1 in g2(q0, None) for q2 in g3(q0, None): add_clause([-g0(q0, 1), -q2, g0(q0, 3)])
+        ((('q0', 'range(1, k + 1)'), ('q1', 'g2(q0, None)'), ('q2', 'g3(q0, None)')), (), 'add_clause', ('[-g0(q0, 1), -q2, g0(q0, 3)]',)),
+        # for q0 in range(1, k + 1) for q1 in g2(q0, None) for q2 in g3(q0, None): add_clause([-g0(q0, 2), -g0(q0, 3), -q2])
+        ((('q0', 'range(1, k + 1)'), ('q1', 'g2(q0, None)'), ('q2', 'g3(q0, None)')), (), 'add_clause', ('[-g0(q0, 2), -g0(q0, 3), -q2]',)),
+        # for q0 in range(1, k + 1) for q1 in g2(q0, None) for q2 in g3(q0, None): add_clause([-q1, -q2, g0(q0, 1)])
+        ((('q0', 'range(1, k + 1)'), ('q1', 'g2(q0, None)'), ('q2', 'g3(q0, None)')), (), 'add_clause', ('[-q1, -q2, g0(q0, 1)]',)),
+        # for q0 in range(1, k + 1) for q1 in g2(q0, None) for q2 in g3(q0, None): add_clause([-q1, -q2, g0(q0, 2)])
+        ((('q0', 'range(1, k + 1)'), ('q1', 'g2(q0, None)'), ('q2', 'g3(q0, None)')), (), 'add_clause', ('[-q1, -q2, g0(q0, 2)]',)),
+        # for q0 in range(1, ny, 2): add_clause({for q1 in range(1, k + 1): extend([-g2(q1, q0), -g2(q1, q0 + 1)])})
+        ((('q0', 'range(1, ny, 2)'),), (), 'add_clause', ('{for q1 in range(1, k + 1): extend([-g2(q1, q0), -g2(q1, q0 + 1)])}',)),
     ],
     ('cnfgen.families.ramsey', 'PythagoreanTriples'): [
-        # for (q0, q1) in combinations(range(1, N + 1), 2) if int(sqrt(q0 ** 2 + q1 ** 2)) ** 2 == q0 ** 2 + q1 ** 2 and int(sqrt(q0 ** 2 + q1 ** 2)) <= N: add_clause([+v(int(sqrt(q0 ** 2 + q1 ** 2))), +v(q0), +v(q1)])
-        ((('(q0, q1)', 'combinations(range(1, N + 1), 2)'),), ('int(sqrt(q0 ** 2 + q1 ** 2)) ** 2 == q0 ** 2 + q1 ** 2', 'int(sqrt(q0 ** 2 + q1 ** 2)) <= N'), 'add_clause', ('[+v(int(sqrt(q0 ** 2 + q1 ** 2))), +v(q0), +v(q1)]',)),
-        # for (q0, q1) in combinations(range(1, N + 1), 2) if int(sqrt(q0 ** 2 + q1 ** 2)) ** 2 == q0 ** 2 + q1 ** 2 and int(sqrt(q0 ** 2 + q1 ** 2)) <= N: add_clause([-v(int(sqrt(q0 ** 2 + q1 ** 2))), -v(q0), -v(q1)])
-        ((('(q0, q1)', 'combinations(range(1, N + 1), 2)'),), ('int(sqrt(q0 ** 2 + q1 ** 2)) ** 2 == q0 ** 2 + q1 ** 2', 'int(sqrt(q0 ** 2 + q1 ** 2)) <= N'), 'add_clause', ('[-v(int(sqrt(q0 ** 2 + q1 ** 2))), -v(q0), -v(q1)]',)),
+        # : g0 = new_block(N)
+        ((), (), 'g0 = new_block', ('N',)),
+        # for (q0, q1) in combinations(range(1, N + 1), 2) if int(sqrt(q0 ** 2 + q1 ** 2)) ** 2 == q0 ** 2 + q1 ** 2 and int(sqrt(q0 ** 2 + q1 ** 2)) <= N: add_clause([+g0(int(sqrt(q0 ** 2 + q1 ** 2))), +g0(q0), +g0(q1)])
+        ((('(q0, q1)', 'combinations(range(1, N + 1), 2)'),), ('int(sqrt(q0 ** 2 + q1 ** 2)) ** 2 == q0 ** 2 + q1 ** 2', 'int(sqrt(q0 ** 2 + q1 ** 2)) <= N'), 'add_clause', ('[+g0(int(sqrt(q0 ** 2 + q1 ** 2))), +g0(q0), +g0(q1)]',)),
+        # for (q0, q1) in combinations(range(1, N + 1), 2) if int(sqrt(q0 ** 2 + q1 ** 2)) ** 2 == q0 ** 2 + q1 ** 2 and int(sqrt(q0 ** 2 + q1 ** 2)) <= N: add_clause([-g0(int(sqrt(q0 ** 2 + q1 ** 2))), -g0(q0), -g0(q1)])
+        ((('(q0, q1)', 'combinations(range(1, N + 1), 2)'),), ('int(sqrt(q0 ** 2 + q1 ** 2)) ** 2 == q0 ** 2 + q1 ** 2', 'int(sqrt(q0 ** 2 + q1 ** 2)) <= N'), 'add_clause', ('[-g0(int(sqrt(q0 ** 2 + q1 ** 2))), -g0(q0), -g0(q1)]',)),
     ],
     ('cnfgen.families.ramsey', 'RamseyNumber'): [
-        # for q0 in combinations(range(1, N + 1), s): add_clause([e(c0, c1) for c0, c1 in combinations(q0, 2)])
-        ((('q0', 'combinations(range(1, N + 1), s)'),), (), 'add_clause', ('[e(c0, c1) for c0, c1 in combinations(q0, 2)]',)),
-        # for q0 in combinations(range(1, N + 1), k): add_clause([-e(c0, c1) for c0, c1 in combinations(q0, 2)])
-        ((('q0', 'combinations(range(1, N + 1), k)'),), (), 'add_clause', ('[-e(c0, c1) for c0, c1 in combinations(q0, 2)]',)),
+        # : g0 = new_combinations(N, 2)
+        ((), (), 'g0 = new_combinations', ('N', '2')),
+        # for q0 in combinations(range(1, N + 1), s): add_clause([g0(c0, c1) for c0, c1 in combinations(q0, 2)])
+        ((('q0', 'combinations(range(1, N + 1), s)'),), (), 'add_clause', ('[g0(c0, c1) for c0, c1 in combinations(q0, 2)]',)),
+        # for q0 in combinations(range(1, N + 1), k): add_clause([-g0(c0, c1) for c0, c1 in combinations(q0, 2)])
+        ((('q0', 'combinations(range(1, N + 1), k)'),), (), 'add_clause', ('[-g0(c0, c1) for c0, c1 in combinations(q0, 2)]',)),
     ],
     ('cnfgen.families.ramsey', 'VanDerWaerden'): [
-        # for q0 in _vdw_ap_generator(N, ([k1, k2] + ks)[0]) if 2 == len([k1, k2] + ks): add_clause([x(c0) for c0 in q0])
-        ((('q0', '_vdw_ap_generator(N, ([k1, k2] + ks)[0])'),), ('2 == len([k1, k2] + ks)',), 'add_clause', ('[x(c0) for c0 in q0]',)),
-        # for q0 in _vdw_ap_generator(N, ([k1, k2] + ks)[1]) if 2 == len([k1, k2] + ks): add_clause([-x(c0) for c0 in q0])
-        ((('q0', '_vdw_ap_generator(N, ([k1, k2] + ks)[1])'),), ('2 == len([k1, k2] + ks)',), 'add_clause', ('[-x(c0) for c0 in q0]',)),
-        # for q0 in range(1, N + 1) if 2 != len([k1, k2] + ks): cardinality_eq(x(q0, None), 1)
-        ((('q0', 'range(1, N + 1)'),), ('2 != len([k1, k2] + ks)',), 'cardinality_eq', ('x(q0, None)', '1')),
-        # for q0 in range(1, len([k1, k2] + ks) + 1) for q1 in _vdw_ap_generator(N, ([k1, k2] + ks)[q0 - 1]) if 2 != len([k1, k2] + ks): add_clause([-x(c0, q0) for c0 in q1])
-        ((('q0', 'range(1, len([k1, k2] + ks) + 1)'), ('q1', '_vdw_ap_generator(N, ([k1, k2] + ks)[q0 - 1])')), ('2 != len([k1, k2] + ks)',), 'add_clause', ('[-x(c0, q0) for c0 in q1]',)),
+        #  if 2 == len([k1, k2] + ks): g0 = new_block(N)
+        ((), ('2 == len([k1, k2] + ks)',), 'g0 = new_block', ('N',)),
+        # for q0 in _vdw_ap_generator(N, ([k1, k2] + ks)[0]) if 2 == len([k1, k2] + ks): add_clause([g0(c0) for c0 in q0])
+        ((('q0', '_vdw_ap_generator(N, ([k1, k2] + ks)[0])'),), ('2 == len([k1, k2] + ks)',), 'add_clause', ('[g0(c0) for c0 in q0]',)),
+        # for q0 in _vdw_ap_generator(N, ([k1, k2] + ks)[1]) if 2 == len([k1, k2] + ks): add_clause([-g0(c0) for c0 in q0])
+        ((('q0', '_vdw_ap_generator(N, ([k1, k2] + ks)[1])'),), ('2 == len([k1, k2] + ks)',), 'add_clause', ('[-g0(c0) for c0 in q0]',)),
+        #  if 2 != len([k1, k2] + ks): g0 = new_block(N, len([k1, k2] + ks))
+        ((), ('2 != len([k1, k2] + ks)',), 'g0 = new_block', ('N', 'len([k1, k2] + ks)')),
+        # for q0 in range(1, N + 1) if 2 != len([k1, k2] + ks): cardinality_eq(g0(q0, None), 1)
+        ((('q0', 'range(1, N + 1)'),), ('2 != len([k1, k2] + ks)',), 'cardinality_eq', ('g0(q0, None)', '1')),
+        # for q0 in range(1, len([k1, k2] + ks) + 1) for q1 in _vdw_ap_generator(N, ([k1, k2] + ks)[q0 - 1]) if 2 != len([k1, k2] + ks): add_clause([-g0(c0, q0) for c0 in q1])
+        ((('q0', 'range(1, len([k1, k2] + ks) + 1)'), ('q1', '_vdw_ap_generator(N, ([k1, k2] + ks)[q0 - 1])')), ('2 != len([k1, k2] + ks)',), 'add_clause', ('[-g0(c0, q0) for c0 in q1]',)),
     ],
     ('cnfgen.families.randomformulas', 'RandomKCNF'): [
         # for q0 in sample_clauses(k, n, m, planted_assignments): add_clause(q0)
@@ -210,75 +285,103 @@ SPECS = {
         ((('(q0, q1)', 'sample_parities(k, n, m, planted_assignments)'),), (), 'add_parity', ('q0', 'q1')),
     ],
     ('cnfgen.families.subgraph', 'SubgraphFormula'): [
-        # : force_complete_mapping(s)
-        ((), (), 'force_complete_mapping', ('s',)),
-        # : force_functional_mapping(s)
-        ((), (), 'force_functional_mapping', ('s',)),
-        # : force_injective_mapping(s)
-        ((), (), 'force_injective_mapping', ('s',)),
-        #  if symbreak: force_nondecreasing_mapping(s)
-        ((), ('symbreak',), 'force_nondecreasing_mapping', ('s',)),
-        # for ((q0, q1), (q2, q3)) in product(combinations(H.vertices(), 2), combinations(G.vertices(), 2)) if (induced or not G.has_edge(q2, q3)) and G.has_edge(q2, q3) != H.has_edge(q0, q1): add_clause([-s[q0, q2], -s[q1, q3]])
-        ((('((q0, q1), (q2, q3))', 'product(combinations(H.vertices(), 2), combinations(G.vertices(), 2))'),), ('(induced or not G.has_edge(q2, q3))', 'G.has_edge(q2, q3) != H.has_edge(q0, q1)'), 'add_clause', ('[-s[q0, q2], -s[q1, q3]]',)),
-        # for ((q0, q1), (q2, q3)) in product(combinations(H.vertices(), 2), combinations(G.vertices(), 2)) if (induced or not G.has_edge(q2, q3)) and G.has_edge(q2, q3) != H.has_edge(q0, q1) and not symbreak: add_clause([-s[q0, q3], -s[q1, q2]])
-        ((('((q0, q1), (q2, q3))', 'product(combinations(H.vertices(), 2), combinations(G.vertices(), 2))'),), ('(induced or not G.has_edge(q2, q3))', 'G.has_edge(q2, q3) != H.has_edge(q0, q1)', 'not symbreak'), 'add_clause', ('[-s[q0, q3], -s[q1, q2]]',)),
+        # : g0 = new_mapping(H.order(), G.order())
+        ((), (), 'g0 = new_mapping', ('H.order()', 'G.order()')),
+        # : force_complete_mapping(g0)
+        ((), (), 'force_complete_mapping', ('g0',)),
+        # : force_functional_mapping(g0)
+        ((), (), 'force_functional_mapping', ('g0',)),
+        # : force_injective_mapping(g0)
+        ((), (), 'force_injective_mapping', ('g0',)),
+        #  if symbreak: force_nondecreasing_mapping(g0)
+        ((), ('symbreak',), 'force_nondecreasing_mapping', ('g0',)),
+        # for ((q0, q1), (q2, q3)) in product(combinations(H.vertices(), 2), combinations(G.vertices(), 2)) if (induced or not G.has_edge(q2, q3)) and G.has_edge(q2, q3) != H.has_edge(q0, q1): add_clause([-g0[q0, q2], -g0[q1, q3]])
+        ((('((q0, q1), (q2, q3))', 'product(combinations(H.vertices(), 2), combinations(G.vertices(), 2))'),), ('(induced or not G.has_edge(q2, q3))', 'G.has_edge(q2, q3) != H.has_edge(q0, q1)'), 'add_clause', ('[-g0[q0, q2], -g0[q1, q3]]',)),
+        # for ((q0, q1), (q2, q3)) in product(combinations(H.vertices(), 2), combinations(G.vertices(), 2)) if (induced or not G.has_edge(q2, q3)) and G.has_edge(q2, q3) != H.has_edge(q0, q1) and not symbreak: add_clause([-g0[q0, q3], -g0[q1, q2]])
+        ((('((q0, q1), (q2, q3))', 'product(combinations(H.vertices(), 2), combinations(G.vertices(), 2))'),), ('(induced or not G.has_edge(q2, q3))', 'G.has_edge(q2, q3) != H.has_edge(q0, q1)', 'not symbreak'), 'add_clause', ('[-g0[q0, q3], -g0[q1, q2]]',)),
     ],
     ('cnfgen.families.subgraph', 'CliqueFormula'): [
-        # : force_complete_mapping(s)
-        ((), (), 'force_complete_mapping', ('s',)),
-        # : force_functional_mapping(s)
-        ((), (), 'force_functional_mapping', ('s',)),
-        # : force_injective_mapping(s)
-        ((), (), 'force_injective_mapping', ('s',)),
-        #  if symbreak: force_nondecreasing_mapping(s)
-        ((), ('symbreak',), 'force_nondecreasing_mapping', ('s',)),
-        # for ((q0, q1), (q2, q3)) in product(combinations(range(1, k + 1), 2), non_edges(G)): add_clause([-s[q0, q2], -s[q1, q3]])
-        ((('((q0, q1), (q2, q3))', 'product(combinations(range(1, k + 1), 2), non_edges(G))'),), (), 'add_clause', ('[-s[q0, q2], -s[q1, q3]]',)),
-        # for ((q0, q1), (q2, q3)) in product(combinations(range(1, k + 1), 2), non_edges(G)) if not symbreak: add_clause([-s[q0, q3], -s[q1, q2]])
-        ((('((q0, q1), (q2, q3))', 'product(combinations(range(1, k + 1), 2), non_edges(G))'),), ('not symbreak',), 'add_clause', ('[-s[q0, q3], -s[q1, q2]]',)),
+        # : g0 = new_mapping(k, G.order())
+        ((), (), 'g0 = new_mapping', ('k', 'G.order()')),
+        # : force_complete_mapping(g0)
+        ((), (), 'force_complete_mapping', ('g0',)),
+        # : force_functional_mapping(g0)
+        ((), (), 'force_functional_mapping', ('g0',)),
+        # : force_injective_mapping(g0)
+        ((), (), 'force_injective_mapping', ('g0',)),
+        #  if symbreak: force_nondecreasing_mapping(g0)
+        ((), ('symbreak',), 'force_nondecreasing_mapping', ('g0',)),
+        # for ((q0, q1), (q2, q3)) in product(combinations(range(1, k + 1), 2), non_edges(G)): add_clause([-g0[q0, q2], -g0[q1, q3]])
+        ((('((q0, q1), (q2, q3))', 'product(combinations(range(1, k + 1), 2), non_edges(G))'),), (), 'add_clause', ('[-g0[q0, q2], -g0[q1, q3]]',)),
+        # for ((q0, q1), (q2, q3)) in product(combinations(range(1, k + 1), 2), non_edges(G)) if not symbreak: add_clause([-g0[q0, q3], -g0[q1, q2]])
+        ((('((q0, q1), (q2, q3))', 'product(combinations(range(1, k + 1), 2), non_edges(G))'),), ('not symbreak',), 'add_clause', ('[-g0[q0, q3], -g0[q1, q2]]',)),
     ],
     ('cnfgen.families.subgraph', 'BinaryCliqueFormula'): [
-        # : force_complete_mapping(y)
-        ((), (), 'force_complete_mapping', ('y',)),
-        # : force_injective_mapping(y)
-        ((), (), 'force_injective_mapping', ('y',)),
-        #  if symbreak: force_nondecreasing_mapping(y)
-        ((), ('symbreak',), 'force_nondecreasing_mapping', ('y',)),
-        # for ((q0, q1), (q2, q3)) in product(combinations(range(1, k + 1), 2), ((c0 - 1, c1 - 1) for c0, c1 in non_edges(G))): add_clause(y.forbid(q0, q2) + y.forbid(q1, q3))
-        ((('((q0, q1), (q2, q3))', 'product(combinations(range(1, k + 1), 2), ((c0 - 1, c1 - 1) for c0, c1 in non_edges(G)))'),), (), 'add_clause', ('y.forbid(q0, q2) + y.forbid(q1, q3)',)),
-        # for ((q0, q1), (q2, q3)) in product(combinations(range(1, k + 1), 2), ((c0 - 1, c1 - 1) for c0, c1 in non_edges(G))) if not symbreak: add_clause(y.forbid(q0, q3) + y.forbid(q1, q2))
-        ((('((q0, q1), (q2, q3))', 'product(combinations(range(1, k + 1), 2), ((c0 - 1, c1 - 1) for c0, c1 in non_edges(G)))'),), ('not symbreak',), 'add_clause', ('y.forbid(q0, q3) + y.forbid(q1, q2)',)),
+        # : g0 = new_binary_mapping(k, G.order())
+        ((), (), 'g0 = new_binary_mapping', ('k', 'G.order()')),
+        # : force_complete_mapping(g0)
+        ((), (), 'force_complete_mapping', ('g0',)),
+        # : force_injective_mapping(g0)
+        ((), (), 'force_injective_mapping', ('g0',)),
+        #  if symbreak: force_nondecreasing_mapping(g0)
+        ((), ('symbreak',), 'force_nondecreasing_mapping', ('g0',)),
+        # for ((q0, q1), (q2, q3)) in product(combinations(range(1, k + 1), 2), ((c0 - 1, c1 - 1) for c0, c1 in non_edges(G))): add_clause(g0.forbid(q0, q2) + g0.forbid(q1, q3))
+        ((('((q0, q1), (q2, q3))', 'product(combinations(range(1, k + 1), 2), ((c0 - 1, c1 - 1) for c0, c1 in non_edges(G)))'),), (), 'add_clause', ('g0.forbid(q0, q2) + g0.forbid(q1, q3)',)),
+        # for ((q0, q1), (q2, q3)) in product(combinations(range(1, k + 1), 2), ((c0 - 1, c1 - 1) for c0, c1 in non_edges(G))) if not symbreak: add_clause(g0.forbid(q0, q3) + g0.forbid(q1, q2))
+        ((('((q0, q1), (q2, q3))', 'product(combinations(range(1, k + 1), 2), ((c0 - 1, c1 - 1) for c0, c1 in non_edges(G)))'),), ('not symbreak',), 'add_clause', ('g0.forbid(q0, q3) + g0.forbid(q1, q2)',)),
     ],
     ('cnfgen.families.subgraph', 'RamseyWitnessFormula'): [
-        # : force_complete_mapping(s)
-        ((), (), 'force_complete_mapping', ('s',)),
-        # : force_functional_mapping(s)
-        ((), (), 'force_functional_mapping', ('s',)),
-        # : force_injective_mapping(s)
-        ((), (), 'force_injective_mapping', ('s',)),
-        # for ((q0, q1), (q2, q3)) in product(combinations(range(1, k + 1), 2), combinations(G.vertices(), 2)) if not G.has_edge(q2, q3): add_clause([-C, -s(q0, q2), -s(q1, q3)])
-        ((('((q0, q1), (q2, q3))', 'product(combinations(range(1, k + 1), 2), combinations(G.vertices(), 2))'),), ('not G.has_edge(q2, q3)',), 'add_clause', ('[-C, -s(q0, q2), -s(q1, q3)]',)),
-        # for ((q0, q1), (q2, q3)) in product(combinations(range(1, k + 1), 2), combinations(G.vertices(), 2)) if G.has_edge(q2, q3): add_clause([-s(q0, q2), -s(q1, q3), C])
-        ((('((q0, q1), (q2, q3))', 'product(combinations(range(1, k + 1), 2), combinations(G.vertices(), 2))'),), ('G.has_edge(q2, q3)',), 'add_clause', ('[-s(q0, q2), -s(q1, q3), C]',)),
-        # for ((q0, q1), (q2, q3)) in product(combinations(range(1, k + 1), 2), combinations(G.vertices(), 2)) if symbreak: add_clause([-s(q0, q3), -s(q1, q2)])
-        ((('((q0, q1), (q2, q3))', 'product(combinations(range(1, k + 1), 2), combinations(G.vertices(), 2))'),), ('symbreak',), 'add_clause', ('[-s(q0, q3), -s(q1, q2)]',)),
-        # for ((q0, q1), (q2, q3)) in product(combinations(range(1, k + 1), 2), combinations(G.vertices(), 2)) if not G.has_edge(q2, q3) and not symbreak: add_clause([-C, -s(q0, q3), -s(q1, q2)])
-        ((('((q0, q1), (q2, q3))', 'product(combinations(range(1, k + 1), 2), combinations(G.vertices(), 2))'),), ('not G.has_edge(q2, q3)', 'not symbreak'), 'add_clause', ('[-C, -s(q0, q3), -s(q1, q2)]',)),
-        # for ((q0, q1), (q2, q3)) in product(combinations(range(1, k + 1), 2), combinations(G.vertices(), 2)) if G.has_edge(q2, q3) and not symbreak: add_clause([-s(q0, q3), -s(q1, q2), C])
-        ((('((q0, q1), (q2, q3))', 'product(combinations(range(1, k + 1), 2), combinations(G.vertices(), 2))'),), ('G.has_edge(q2, q3)', 'not symbreak'), 'add_clause', ('[-s(q0, q3), -s(q1, q2), C]',)),
+        # : g1 = new_variable()
+        ((), (), 'g1 = new_variable', ()),
+        # : g0 = new_mapping(k, G.order())
+        ((), (), 'g0 = new_mapping', ('k', 'G.order()')),
+        # : force_complete_mapping(g0)
+        ((), (), 'force_complete_mapping', ('g0',)),
+        # : force_functional_mapping(g0)
+        ((), (), 'force_functional_mapping', ('g0',)),
+        # : force_injective_mapping(g0)
+        ((), (), 'force_injective_mapping', ('g0',)),
+        # for ((q0, q1), (q2, q3)) in product(combinations(range(1, k + 1), 2), combinations(G.vertices(), 2)) if not G.has_edge(q2, q3): add_clause([-g0(q0, q2), -g0(q1, q3), -g1])
+        ((('((q0, q1), (q2, q3))', 'product(combinations(range(1, k + 1), 2), combinations(G.vertices(), 2))'),), ('not G.has_edge(q2, q3)',), 'add_clause', ('[-g0(q0, q2), -g0(q1, q3), -g1]',)),
+        # for ((q0, q1), (q2, q3)) in product(combinations(range(1, k + 1), 2), combinations(G.vertices(), 2)) if G.has_edge(q2, q3): add_clause([-g0(q0, q2), -g0(q1, q3), g1])
+        ((('((q0, q1), (q2, q3))', 'product(combinations(range(1, k + 1), 2), combinations(G.vertices(), 2))'),), ('G.has_edge(q2, q3)',), 'add_clause', ('[-g0(q0, q2), -g0(q1, q3), g1]',)),
+        # for ((q0, q1), (q2, q3)) in product(combinations(range(1, k + 1), 2), combinations(G.vertices(), 2)) if symbreak: add_clause([-g0(q0, q3), -g0(q1, q2)])
+        ((('((q0, q1), (q2, q3))', 'product(combinations(range(1, k + 1), 2), combinations(G.vertices(), 2))'),), ('symbreak',), 'add_clause', ('[-g0(q0, q3), -g0(q1, q2)]',)),
+        # for ((q0, q1), (q2, q3)) in product(combinations(range(1, k + 1), 2), combinations(G.vertices(), 2)) if not G.has_edge(q2, q3) and not symbreak: add_clause([-g0(q0, q3), -g0(q1, q2), -g1])
+        ((('((q0, q1), (q2, q3))', 'product(combinations(range(1, k + 1), 2), combinations(G.vertices(), 2))'),), ('not G.has_edge(q2, q3)', 'not symbreak'), 'add_clause', ('[-g0(q0, q3), -g0(q1, q2), -g1]',)),
+        # for ((q0, q1), (q2, q3)) in product(combinations(range(1, k + 1), 2), combinations(G.vertices(), 2)) if G.has_edge(q2, q3) and not symbreak: add_clause([-g0(q0, q3), -g0(q1, q2), g1])
+        ((('((q0, q1), (q2, q3))', 'product(combinations(range(1, k + 1), 2), combinations(G.vertices(), 2))'),), ('G.has_edge(q2, q3)', 'not symbreak'), 'add_clause', ('[-g0(q0, q3), -g0(q1, q2), g1]',)),
     ],
     ('cnfgen.families.subsetcardinality', 'SubsetCardinalityFormula'): [
-        # for q0 in Left if equalities: cardinality_eq(x(q0, None), (B.right_degree(q0) + 1) // 2)
-        ((('q0', 'Left'),), ('equalities',), 'cardinality_eq', ('x(q0, None)', '(B.right_degree(q0) + 1) // 2')),
-        # for q0 in Left if not equalities: add_loose_majority(x(q0, None))
-        ((('q0', 'Left'),), ('not equalities',), 'add_loose_majority', ('x(q0, None)',)),
-        # for q0 in Right if equalities: cardinality_eq(x(None, q0), B.left_degree(q0) // 2)
-        ((('q0', 'Right'),), ('equalities',), 'cardinality_eq', ('x(None, q0)', 'B.left_degree(q0) // 2')),
-        # for q0 in Right if not equalities: add_loose_minority(x(None, q0))
-        ((('q0', 'Right'),), ('not equalities',), 'add_loose_minority', ('x(None, q0)',)),
+        # : g0 = new_bipartite_edges(B)
+        ((), (), 'g0 = new_bipartite_edges', ('B',)),
+        # for q0 in B.parts()[0] if equalities: cardinality_eq(g0(q0, None), (B.right_degree(q0) + 1) // 2)
+        ((('q0', 'B.parts()[0]'),), ('equalities',), 'cardinality_eq', ('g0(q0, None)', '(B.right_degree(q0) + 1) // 2')),
+        # for q0 in B.parts()[0] if not equalities: add_loose_majority(g0(q0, None))
+        ((('q0', 'B.parts()[0]'),), ('not equalities',), 'add_loose_majority', ('g0(q0, None)',)),
+        # for q0 in B.parts()[1] if equalities: cardinality_eq(g0(None, q0), B.left_degree(q0) // 2)
+        ((('q0', 'B.parts()[1]'),), ('equalities',), 'cardinality_eq', ('g0(None, q0)', 'B.left_degree(q0) // 2')),
+        # for q0 in B.parts()[1] if not equalities: add_loose_minority(g0(None, q0))
+        ((('q0', 'B.parts()[1]'),), ('not equalities',), 'add_loose_minority', ('g0(None, q0)',)),
     ],
     ('cnfgen.families.tseitin', 'TseitinFormula'): [
-        # for (q0, q1) in zip(G.vertices(), charges): add_parity([E(c0, q0) for c0 in G.neighbors(q0)], q1)
-        ((('(q0, q1)', 'zip(G.vertices(), charges)'),), (), 'add_parity', ('[E(c0, q0) for c0 in G.neighbors(q0)]', 'q1')),
+        # : g0 = new_graph_edges(G)
+        ((), (), 'g0 = new_graph_edges', ('G',)),
+        # for (q0, q1) in zip(G.vertices(), charges): add_parity([g0(c0, q0) for c0 in G.neighbors(q0)], q1)
+        ((('(q0, q1)', 'zip(G.vertices(), charges)'),), (), 'add_parity', ('[g0(c0, q0) for c0 in G.neighbors(q0)]', 'q1')),
+    ],
+    ('cnfgen.families.pebbling', '_uniqify_list'): [
+        # : return([c0 for c0 in seq if c0 not in {_it = set()} and (not {_it = set()}.add(c0))])
+        ((), (), 'return', ('[c0 for c0 in seq if c0 not in {_it = set()} and (not {_it = set()}.add(c0))]',)),
+    ],
+    ('cnfgen.families.ramsey', '_vdw_ap_generator'): [
+        # for q0 in range(1, N + 1) if 1 == k: yield([q0])
+        ((('q0', 'range(1, N + 1)'),), ('1 == k',), 'yield', ('[q0]',)),
+        # for q0 in range(1, (N - 1) // (k - 1) + 1) for q1 in range(1, N - q0 * k + q0 + 1) if 1 != k: yield([q1 + q0 * c0 for c0 in range(k)])
+        ((('q0', 'range(1, (N - 1) // (k - 1) + 1)'), ('q1', 'range(1, N - q0 * k + q0 + 1)')), ('1 != k',), 'yield', ('[q1 + q0 * c0 for c0 in range(k)]',)),
+    ],
+    ('cnfgen.families.subgraph', 'non_edges'): [
+        # for q0 in range(1, G.order()) for q1 in range(q0 + 1, G.order() + 1) if not G.has_edge(q0, q1): yield((q0, q1))
+        ((('q0', 'range(1, G.order())'), ('q1', 'range(q0 + 1, G.order() + 1)')), ('not G.has_edge(q0, q1)',), 'yield', ('(q0, q1)',)),
     ],
 }
